@@ -3,6 +3,7 @@
 pub mod abi;
 pub mod clean;
 pub mod syn;
+pub mod text;
 pub mod wild;
 
 use crate::choice::Choices;
